@@ -562,6 +562,17 @@ pub fn random_step(w: &mut World, sc: &Scenario, rec: &mut Recorder) {
             rec.exec(w, &ix, false, json!(null));
         }
         37..=41 => {
+            // now and then the price is first put exactly on one of the position's bounds (from either side)
+            if w.rng.gen_bool(0.3) {
+                if let Some((_, lo, up)) = w.pos_range(&p) {
+                    let target = price_of(if w.rng.gen_bool(0.5) { lo } else { up });
+                    let cur = w.pool_sqrt_price(&pool);
+                    if target != cur && target > MIN_SQRT_PRICE && target < MAX_SQRT_PRICE {
+                        let ix = w.ix_swap(&pool, "U2", 1u64 << 60, 0, target, true, target < cur, v2);
+                        rec.exec(w, &ix, false, json!("to_bound"));
+                    }
+                }
+            }
             let a = log_uniform(w, 1, 50) as u64;
             let b = log_uniform(w, 1, 50) as u64;
             let sp = w.pool_sqrt_price(&pool);
